@@ -1,6 +1,6 @@
 SPECIFICATION Spec
 CONSTANTS
-  MaxM = 6
-  K = 3
+  MaxM = 7
+  K = 4
 INVARIANT Inv
 CHECK_DEADLOCK FALSE
